@@ -106,7 +106,7 @@ theorem probeChunks_fit {W : World E L} {T : Tables E} {c : Ctx E} {e : E} {p : 
     decoded text — it depends on nothing else (not on the encoding, the BOM, the bytes). -/
 theorem C13_chaos_of_text {W : World E L} {T : Tables E} {sort : Sorter E L}
     (hperm : ∀ l, (sort l).Perm l)
-    (hchars : ∀ e x t, W.decode e x = .ok (some t) → t.length ≤ x.length)
+    (hchars : ∀ e x t, e ∈ T.supported → W.decode e x = .ok (some t) → t.length ≤ x.length)
     {b : Bytes} {s : Settings} {incl excl : List E}
     (hincl : canonList T.ianaName s.incl = .ok incl) (hexcl : canonList T.ianaName s.excl = .ok excl)
     (hfit : Fits b s) (hthr : s.thr.isNaN = false)
@@ -131,7 +131,7 @@ theorem C13_chaos_of_text {W : World E L} {T : Tables E} {sort : Sorter E L}
     have hpay : p.payload = some t0 := by rw [hp4 hl, ht]
     have hlen : t0.length ≤ (ctxOf T b s).chunk := by
       rw [hctx.2]
-      have := hchars _ _ _ hdec
+      have := hchars _ _ _ f.supported hdec
       simp only [List.length_drop] at this
       have hbb : (ctxOf T b s).b = b := rfl
       rw [hbb] at this
